@@ -314,6 +314,7 @@ func GetParam(ctx *Task, expr *ast.CallExpr, params []*Param, i int) (any, *errc
 			if errReg != nil {
 				return nil, NewRunError(ctx, errReg.Error(), p.StartPos())
 			}
+			ctx.Regs.Reset() // an argument's value is not the function's result
 			ret = append(ret, v.V)
 		}
 		return ret, nil
@@ -334,6 +335,7 @@ func GetParam(ctx *Task, expr *ast.CallExpr, params []*Param, i int) (any, *errc
 		if errReg != nil {
 			return nil, NewRunError(ctx, errReg.Error(), expr.ParamNormalized[i].StartPos())
 		}
+		ctx.Regs.Reset() // an argument's value is not the function's result
 		return v.V, nil
 	}
 }
